@@ -69,6 +69,9 @@ package keeper
 //@       && meta.OrderId == old(meta.OrderId) && meta.Commits == old(meta.Commits) && meta.Orders == old(meta.Orders) && meta.Commit == old(meta.Commit)
 //@       && meta.Status == old(meta.Status) && meta.CreatedAt == old(meta.CreatedAt) && meta.Cid == old(meta.Cid)
 //@       && meta.ReadonlyDids == old(meta.ReadonlyDids) && meta.ReadwriteDids == old(meta.ReadwriteDids)
+//@   ensures [C11.reset.inv.once] old(forall c string, h int, i int, j int :: 0 <= h && h <= MaxUint64 && has(ExpiredData, h) && 0 <= i && i < j && j < len(ExpiredData[h].Data) ==> !(ExpiredData[h].Data[i] == c && ExpiredData[h].Data[j] == c))
+//@       && old(forall h int :: 0 <= h && h <= MaxUint64 && has(ExpiredData, h) && contains(ExpiredData[h].Data, meta.DataId) ==> h == u64(meta.CreatedAt + meta.Duration))
+//@       ==> forall c string, h int, i int, j int :: 0 <= h && h <= MaxUint64 && has(ExpiredData, h) && 0 <= i && i < j && j < len(ExpiredData[h].Data) ==> !(ExpiredData[h].Data[i] == c && ExpiredData[h].Data[j] == c)
 //@   ensures [C11.reset.nowrap] meta.CreatedAt + meta.Duration <= MaxUint64 && meta.CreatedAt + meta.Duration >= meta.CreatedAt
 //@   loop L1 invariant -1 <= rangeindex
 //@   loop L2 invariant -1 <= rangeindex
@@ -191,6 +194,10 @@ package keeper
 //@       && Metadata[order.DataId].Alias == old(Metadata[order.DataId].Alias) && Metadata[order.DataId].GroupId == old(Metadata[order.DataId].GroupId)
 //@   ensures [C07.updatemeta.debts] (forall c string :: old(has(PledgeDebt, c)) ==> old(PledgeDebt[c].Debt.Amount) >= 0) ==> forall c string :: has(PledgeDebt, c) ==> PledgeDebt[c].Debt.Amount >= 0
 //@   ensures [C09.updatemeta.exists] has(Metadata, order.DataId) <==> old(has(Metadata, order.DataId))
+//@   ensures [C11.updatemeta.lifetime] err == nil && order.Operation != 2 ==> Metadata[order.DataId].CreatedAt == old(Metadata[order.DataId].CreatedAt) && Metadata[order.DataId].Duration == old(Metadata[order.DataId].Duration)
+//@   ensures [C11.updatemeta.inv.once] old(forall c string, h int, i int, j int :: 0 <= h && h <= MaxUint64 && has(ExpiredData, h) && 0 <= i && i < j && j < len(ExpiredData[h].Data) ==> !(ExpiredData[h].Data[i] == c && ExpiredData[h].Data[j] == c))
+//@       && old(forall h int :: 0 <= h && h <= MaxUint64 && has(ExpiredData, h) && contains(ExpiredData[h].Data, order.DataId) ==> h == u64(Metadata[order.DataId].CreatedAt + Metadata[order.DataId].Duration))
+//@       ==> forall c string, h int, i int, j int :: 0 <= h && h <= MaxUint64 && has(ExpiredData, h) && 0 <= i && i < j && j < len(ExpiredData[h].Data) ==> !(ExpiredData[h].Data[i] == c && ExpiredData[h].Data[j] == c)
 //@   ensures [C09.updatemeta.err] err != nil && order.Operation != 2 ==> Metadata[order.DataId] == old(Metadata[order.DataId]) && (has(Metadata, order.DataId) <==> old(has(Metadata, order.DataId)))
 //@   ensures [C09.updatemeta.frame.pledge] order.Operation != 2 ==> forall c string :: Pledge[c] == old(Pledge[c]) && (has(Pledge, c) <==> old(has(Pledge, c)))
 //@   ensures [C09.updatemeta.frame.debt] order.Operation != 2 ==> forall c string :: PledgeDebt[c] == old(PledgeDebt[c]) && (has(PledgeDebt, c) <==> old(has(PledgeDebt, c)))
